@@ -248,6 +248,12 @@ class AsyncIOClient(ABC):
         """
         try:
             msgs = self._encode_impl(nmea2000Message)
+        except Exception as ee:
+            # whatever the encoder dislikes about the message (a missing or ill-typed attribute, an unknown PGN, no encoder for this
+            # gateway): the message cannot be sent, the connection is fine
+            self.logger.warning(f"Failed to encode message. Error {ee}")
+            return
+        try:
             assert self.writer is not None
             # drain() may suspend under back-pressure; without the lock another send() would then write its
             # frames in between the frames of this (fast-packet) message
